@@ -7,6 +7,7 @@ use std::panic::{catch_unwind, AssertUnwindSafe};
 mod util;
 mod hashops;
 mod treeops;
+mod graphops;
 
 pub struct Ctx {
     pub hash: hashops::HashCtx,
@@ -22,6 +23,9 @@ impl Ctx {
             return "bad-op".into();
         }
         if let Some(r) = self.hash.exec(w) {
+            return r;
+        }
+        if let Some(r) = graphops::exec(w) {
             return r;
         }
         if let Some(r) = self.tree.exec(w) {
